@@ -28,6 +28,12 @@ def run(cmd, cwd, timeout=600):
 OPS = [("==", "!="), ("!=", "=="), ("<=", "<"), (">=", ">"), (" < ", " <= "), (" > ", " >= "), ("&&", "||"), ("||", "&&"),
        (" + ", " - "), (" - ", " + "), (" & ", " | "), (" | ", " & "), (" ^ ", " & "), ("<<", ">>"), (">>", "<<"), (" * ", " + ")]
 
+SIBLINGS = [("Add", "Subtract"), ("Subtract", "Add"), ("Multiply", "Add"), ("Square", "Set"), ("Negate", "Set"), ("Double", "Set"),
+            ("Sub", "Add"), ("Mul", "Add"), ("IsZero", "Sgn0"), ("Equals", "Sgn0x"), ("One", "Zero"), ("Zero", "One"), ("Encode", "EncodeUncompressed"),
+            ("DecodeCompressed", "DecodeUncompressed"), ("Identity", "Base"), ("IsOne", "IsZero"), ("IsZero", "IsOne"), ("ToMontgomery", "FromMontgomery"),
+            ("FromMontgomery", "ToMontgomery"), ("FromBytesWithReduce", "FromBytesNoReduce2"), ("copy", "set"), ("set", "copy")]
+ONLY_NEW = "--new-ops" in sys.argv
+
 def mutants_of(path, text):
     out = []
     lines = text.split("\n")
@@ -61,6 +67,20 @@ def mutants_of(path, text):
             a, b = m.group(1), m.group(2)
             if a.strip() != b.strip():
                 out.append((ln, f"swap args@{m.start()}", line[:m.start()] + "(" + b + ", " + a + ")" + line[m.end():]))
+        # swapped last two operands of a three-operand call:  f(c, a, b) -> f(c, b, a)
+        for m in re.finditer(r"\(([^(),]+), ([^(),]+), ([^(),]+)\)", code):
+            a, b, c = m.group(1), m.group(2), m.group(3)
+            if b.strip() != c.strip():
+                out.append((ln, f"swap last args@{m.start()}", line[:m.start()] + "(" + a + ", " + c + ", " + b + ")" + line[m.end():]))
+            if a.strip() != b.strip():
+                out.append((ln, f"swap first args@{m.start()}", line[:m.start()] + "(" + b + ", " + a + ", " + c + ")" + line[m.end():]))
+        # a call replaced by a sibling operation of the same signature
+        for a, b in SIBLINGS:
+            for m in re.finditer(r"\." + a + r"\(", code):
+                out.append((ln, f"{a}->{b}@{m.start()}", line[:m.start()] + "." + b + "(" + line[m.end():]))
+        # dropped negation
+        for m in re.finditer(r"!(?=[A-Za-z(])", code):
+            out.append((ln, f"drop !@{m.start()}", line[:m.start()] + line[m.end():]))
         # deleted call statement
         if re.match(r"^\s*[\w.\[\]&*]+\.[A-Za-z]\w*\(.*\)\s*$", code) and not s.startswith("return") and not s.startswith("defer") and not s.startswith("panic"):
             out.append((ln, "delete statement", re.match(r"^\s*", line).group(0) + "_ = 0"))
@@ -76,6 +96,8 @@ def mutants_of(path, text):
     res = []
     for ln, what, newline in out:
         if newline == lines[ln]:
+            continue
+        if ONLY_NEW and not (what.startswith("swap last") or what.startswith("swap first") or what.startswith("drop !") or re.match(r"^[A-Za-z]\w*->[A-Za-z]", what)):
             continue
         res.append({"file": path, "line": ln + 1, "what": what, "old": lines[ln].strip()[:120], "new": newline.strip()[:120], "_newline": newline})
     return res
